@@ -357,6 +357,13 @@ class Emit:
                     if br is not None:
                         for v in self.assigned(self.as_stmts(br)):
                             add(v)
+            elif x[0] == "iflet":
+                bound = {ident(n) for n in self.pvars(x[1])}
+                for br in (x[3], x[4]):
+                    if br is not None:
+                        for v in self.assigned(self.as_stmts(br)):
+                            if v not in bound:
+                                add(v)
         def walk_value(x):                                # a value-carrying `if` / `if let` / `match` / block with effects inside
             if x[0] == "block":
                 for v in self.assigned(list(x[1])):
@@ -536,7 +543,7 @@ class Emit:
             body = self.as_stmts(x[3])
             w = self.assigned(body)
             if not w:
-                return tailstr()
+                raise Unsupported("loop or branch whose effect the reader does not recognise (nothing assigned)")
             t = self.tup(w)
             return "let %s := (List.foldl (fun %s (%s, %s) => (%s)) %s (List.zipIdx %s));\n    %s" % (
                 t, t, self.pat(x[1][1][1]), self.pat(x[1][1][0]), self.imp(body, t), t, self.atom(x[2][1][1]), tailstr())
@@ -563,7 +570,7 @@ class Emit:
             body = self.as_stmts(x[3])
             w = [v for v in self.assigned(body) if v not in {ident(n) for n in self.pvars(x[1])}]
             if not w:
-                return tailstr()
+                raise Unsupported("loop or branch whose effect the reader does not recognise (nothing assigned)")
             t = self.tup(w)
             return "(match (List.foldl (fun __acc %s => (match __acc with\n    | none => none\n    | some %s => (%s))) (some %s) %s) with\n    | some %s => (%s)\n    | none => none)" % (
                 self.pat(x[1]), t, self.imp(body, "some " + t), t, self.atom(x[2]), t, tailstr())
@@ -572,7 +579,7 @@ class Emit:
             body = self.as_stmts(x[3])
             w = self.assigned(body)
             if not w:
-                return tailstr()
+                raise Unsupported("loop or branch whose effect the reader does not recognise (nothing assigned)")
             t = self.tup(w)
             return "let %s := (List.foldl (fun %s %s => (%s)) %s %s);\n    %s" % (
                 t, t, self.pat(x[1]), self.imp(body, t), t, self.atom(x[2]), tailstr())
@@ -582,7 +589,7 @@ class Emit:
             body = self.as_stmts(x[3])
             w = self.assigned(body)
             if not w:
-                return tailstr()
+                raise Unsupported("loop or branch whose effect the reader does not recognise (nothing assigned)")
             t = self.tup(w)
             a, b = self.e(x[2][1]), self.e(x[2][2])
             return "let %s := (List.foldl (fun %s %s => (%s)) %s (List.range' %s (%s - %s)));\n    %s" % (
@@ -600,16 +607,26 @@ class Emit:
                     if v not in w:
                         w.append(v)
             if not w:
-                return tailstr()
+                raise Unsupported("loop or branch whose effect the reader does not recognise (nothing assigned)")
             t = self.tup(w)
             arms = "".join("\n    | %s => (%s)" % (self.pat(p_), self.imp(self.as_stmts(b), t)) for p_, b in x[2])
             return "let %s := (match %s with%s);\n    %s" % (t, self.e(x[1]), arms, tailstr())
+        if x[0] == "iflet":
+            # `if let pat = e { … } [else { … }]` as a statement: the places the branches assign are carried out of the match
+            thn = self.as_stmts(x[3])
+            els = self.as_stmts(x[4]) if x[4] is not None else []
+            bound = {ident(n) for n in self.pvars(x[1])}
+            w = [v for v in self.assigned(thn + els) if v not in bound]
+            if not w:
+                raise Unsupported("loop or branch whose effect the reader does not recognise (nothing assigned)")
+            t = self.tup(w)
+            return "let %s := (match %s with\n    | %s => (%s)\n    | _ => (%s));\n    %s" % (t, self.e(x[2]), self.pat(x[1]), self.imp(thn, t), self.imp(els, t), tailstr())
         if x[0] == "if":
             thn = self.as_stmts(x[2])
             els = self.as_stmts(x[3]) if x[3] is not None else []
             w = self.assigned(thn + els)
             if not w:
-                return tailstr()
+                raise Unsupported("loop or branch whose effect the reader does not recognise (nothing assigned)")
             t = self.tup(w)
             return "let %s := (if %s then (%s) else (%s));\n    %s" % (t, self.e(x[1]), self.imp(thn, t), self.imp(els, t), tailstr())
         raise Unsupported("imperative statement " + x[0])
@@ -1510,6 +1527,11 @@ FANOUT = [
          call={"crossbeam::channel::unbounded": "((), ())", "Arc::new": "{0}", "Commands::Distances": "({0}, {1}, {2})",
                "TrackDistanceOk::new": "{0}", "TrackDistanceErr::new": "{0}"},
          sendlog={"send": ("sent", "({0}, {1})")}),
+    dict(group="FanOut", name="store_owned_candidates", file="track/store.rs", impl=None, fn="owned_track_distances", imperative=True, result="tracks_vec",
+         snippet=r"let mut tracks_vec = Vec::with_capacity\(tracks\.len\(\)\);.*?(?=let res = self\.foreign_track_distances)",
+         sig="{T DB : Type} (shardOf : DB → Nat → List (Nat × T)) (db : DB) (tracks : List Nat) : List T",
+         method={"get_store": "shardOf db {1}", "get": "mapGet {0} {1}", "clone": "{0}", "len": "List.length {0}"}, cast={"usize": "{0}"},
+         call={"Vec::with_capacity": "[]"}),
 ]
 
 # ---- own-area shares of a call's detections: computed among the detections of that scene and call only (C04, C06, C13)
@@ -2018,7 +2040,7 @@ def main():
     jobs.append(("LIdle.lean", IDLE, "import SimVerif.Gen.LEpoch\nimport SimVerif.Gen.LEpochDb\n" + HEADER_L, "SimVerif.Gen.L"))
     jobs.append(("LVoteParams.lean", VOTEPARAMS, HEADER_L + PRELUDE_VP, "SimVerif.Gen.L"))
     jobs.append(("LBatchReq.lean", BATCHREQ, "import SimVerif.Gen.LBase\n" + HEADER_L, "SimVerif.Gen.L"))
-    jobs.append(("LFanOut.lean", FANOUT, HEADER_L, "SimVerif.Gen.L"))
+    jobs.append(("LFanOut.lean", FANOUT, "import SimVerif.Gen.LBase\n" + HEADER_L, "SimVerif.Gen.L"))
     jobs.append(("LShares.lean", SHARES, HEADER_L + "/-- `VisualSortObservation`: the fields the own-area computation reads -/\nstructure VObsIn (B : Type) where\n  bounding_box : B\n", "SimVerif.Gen.L"))
     jobs.append(("LGc.lean", GC, "import SimVerif.Gen.LEpoch\n" + HEADER_L, "SimVerif.Gen.L"))
     jobs.append(("LApply.lean", APPLY, "import SimVerif.Gen.LBase\n" + HEADER_L, "SimVerif.Gen.L"))
